@@ -308,10 +308,11 @@ Definition create_single_v (m : mgr) (ev : env) (sc : nat -> outcome) (c0 : cach
       | UErr =>
           match tm_is_stale m ev cv a with
           | None => Stop s1 ECfg
-          | Some true => Cont s1 []
+          | Some true => Cont s1 [(a, content_of cv a)]             (* load_tile fills the tile object *)
           | Some false => Stop s1 ESource
           end
-      | UBlank => Cont s1 []
+      | UBlank => Cont s1 (if recheck_uses_loaded m then [(a, content_of cv a)] else [])
+                  (* mbtiles: cache.is_cached(tile) of the re-check has loaded the image if there is one *)
       | UBroken => Stop s1 EBody
       | UOk cacheable auth v0 =>
           let v := apply_tile_filter m v0 in
@@ -332,7 +333,8 @@ Definition create_single_v (m : mgr) (ev : env) (sc : nat -> outcome) (c0 : cach
 Definition serve_after (m : mgr) (c0 c_end : cache) (created : list (addr * option Z)) (a : addr) : option Z :=
   match assoc created a with
   | Some v => v
-  | None => if recheck_uses_loaded m then content_of c0 a else content_of c_end a
+  | None => if recheck_uses_loaded m then content_of c0 a
+            else match get c0 a with Some _ => content_of c_end a | None => None end
   end.
 
 (* the request `coords` sees s0 first; if it has to create tiles, the request `other` completes before it gets its
